@@ -30,9 +30,32 @@ pub fn witness(ty: Ty, b: &[u8], extra: Vec<(&str, J)>) -> J {
 /// supported range as OutOfRangeIntegerValue (except below COSE_Sign's signer array, where the
 /// crate deliberately re-labels every nested failure).
 pub fn decode_oracle(ctx: &mut Ctx, ty: Ty, b: &[u8], carrier: &str, strict_kind: bool) -> Outcome {
+    decode_oracle_ex(ctx, ty, b, carrier, strict_kind, false)
+}
+
+/// Reference verdict for the *tagged* entry point: exactly one tag, the type's RFC 8152 number,
+/// around an item the untagged model accepts.
+pub fn model_tagged(ty: Ty, b: &[u8]) -> Verdict<MVal> {
+    use crate::rcbor::{self, DecErr, Item};
+    let rej = |rule: &'static str| Verdict::Reject(model::Rej { rule, class: Class::Other });
+    match rcbor::decode_exact(b) {
+        Ok((Item::Tag(t, inner), _)) => {
+            if Some(t) != ty.tag() {
+                return rej("tagged.wrong-tag");
+            }
+            model::decode(ty, &inner.normalize())
+        }
+        Ok(_) => rej("tagged.no-tag"),
+        Err(DecErr::Trailing(_)) => rej("bytes.trailing"),
+        Err(DecErr::Truncated) => rej("bytes.truncated"),
+        Err(_) => rej("bytes.malformed"),
+    }
+}
+
+pub fn decode_oracle_ex(ctx: &mut Ctx, ty: Ty, b: &[u8], carrier: &str, strict_kind: bool, tagged: bool) -> Outcome {
     ctx.eval();
-    let verdict = model::decode_bytes(ty, b);
-    let got = capi::from_slice(ty, b);
+    let verdict = if tagged { model_tagged(ty, b) } else { model::decode_bytes(ty, b) };
+    let got = if tagged { capi::from_tagged_slice(ty, b) } else { capi::from_slice(ty, b) };
     let p = ctx.prop;
     match (verdict, got) {
         (Verdict::Unspecified(why), _) => {
@@ -133,4 +156,124 @@ pub fn diff_summary(got: &MVal, want: &MVal) -> String {
     let gs: String = g.chars().skip(from).take(120).collect();
     let ws: String = w.chars().skip(from).take(120).collect();
     format!("got ...{}... want ...{}...", gs, ws)
+}
+
+/// C11 / C18 encode oracle: a well-formed in-memory value encodes, to definite-length CBOR that an
+/// independent parser reads as exactly the CDDL shape of the value, and decodes back to itself
+/// (protected headers then carrying the bytes that encoding assigned).
+pub fn encode_oracle(ctx: &mut Ctx, v: &MVal, how_built: &str) -> Option<Vec<u8>> {
+    use crate::rcbor;
+    let ty = v.ty();
+    let p = ctx.prop;
+    let c = match capi::build(v) {
+        Some(c) => c,
+        None => {
+            ctx.count("not-expressible");
+            return None;
+        }
+    };
+    ctx.eval();
+    let wit = |extra: Vec<(&str, J)>| {
+        let mut o = vec![("type", J::Str(ty.name())), ("built", J::s(how_built)), ("value", J::Str(trunc(format!("{:?}", v))))];
+        o.extend(extra);
+        J::obj(o)
+    };
+    let bytes = match capi::to_vec(c.clone()) {
+        Ok(b) => b,
+        Err(k) => {
+            ctx.violation(&format!("{}/encode-failed/{}/{}", p, ty.name(), k.name()), format!("encoding a well-formed {} failed with {}", ty.name(), k.name()), wit(vec![]));
+            return None;
+        }
+    };
+    let (got, info) = match rcbor::decode_exact(&bytes) {
+        Ok(x) => x,
+        Err(e) => {
+            ctx.violation(&format!("{}/output-not-wellformed/{}", p, ty.name()), format!("to_vec output is not one well-formed CBOR item: {:?}", e), wit(vec![("hex", J::Str(hex(&bytes)))]));
+            return None;
+        }
+    };
+    if info.indefinite > 0 {
+        ctx.violation(&format!("{}/indefinite-output/{}", p, ty.name()), "to_vec output contains indefinite-length items".into(), wit(vec![("hex", J::Str(hex(&bytes)))]));
+    }
+    if info.nonminimal_heads > 0 {
+        ctx.count("output-with-nonminimal-head");
+    }
+    // key_ops is a set: its element order in the output is not part of the property
+    let want = norm_key_ops(ty, &model::encode(v));
+    let got = norm_key_ops(ty, &got);
+    if got != want {
+        ctx.violation(
+            &format!("{}/shape/{}", p, ty.name()),
+            format!("encoded structure differs from the CDDL shape of the value: got {} want {}", hex(&bytes), hex(&rcbor::det(&want))),
+            wit(vec![("got", J::Str(hex(&bytes))), ("want", J::Str(hex(&rcbor::det(&want))))]),
+        );
+        return Some(bytes);
+    }
+    // decode(to_vec(v)) == v with assigned protected bytes
+    let mut expect = v.clone();
+    model::assign_prot_bytes(&mut expect);
+    match capi::from_slice(ty, &bytes) {
+        Ok(back) => {
+            let mut notes = Notes(vec![]);
+            match capi::view(&back, &mut notes) {
+                Some(bv) if bv == expect && notes.0.is_empty() => {}
+                Some(bv) => ctx.violation(&format!("{}/decode-of-encode-differs/{}", p, ty.name()), format!("decoding the encoding does not return the value: {} {}", diff_summary(&bv, &expect), notes.0.join(";")), wit(vec![("hex", J::Str(hex(&bytes)))])),
+                None => {}
+            }
+        }
+        Err(k) => {
+            // values the decoder's own rules reject (e.g. empty signer list is fine, reserved kty is not
+            // generated) - a well-formed value must decode
+            ctx.violation(&format!("{}/encode-not-decodable/{}/{}", p, ty.name(), k.name()), format!("the encoding of a well-formed {} is rejected by the decoder with {}", ty.name(), k.name()), wit(vec![("hex", J::Str(hex(&bytes)))]));
+        }
+    }
+    // tagged form: the registered tag applied once to the same bytes
+    if let Some(tag) = ty.tag() {
+        ctx.eval();
+        match capi::to_tagged_vec(c) {
+            Ok(tb) => {
+                let mut want_tb = Vec::new();
+                rcbor::put_head(&mut want_tb, 6, tag, &mut rcbor::Style::canonical());
+                want_tb.extend_from_slice(&bytes);
+                match rcbor::decode_exact(&tb) {
+                    Ok((Item::Tag(t, inner), _)) if t == tag && rcbor::det(&inner) == rcbor::det(&got) => {
+                        if tb != want_tb {
+                            ctx.count("tagged-head-not-minimal");
+                        }
+                    }
+                    _ => ctx.violation(&format!("{}/tagged-shape/{}", p, ty.name()), format!("to_tagged_vec is not tag {} applied once to the to_vec output", tag), wit(vec![("hex", J::Str(hex(&tb)))])),
+                }
+            }
+            Err(k) => ctx.violation(&format!("{}/tagged-encode-failed/{}/{}", p, ty.name(), k.name()), "to_tagged_vec failed where to_vec succeeded".into(), wit(vec![])),
+        }
+    }
+    Some(bytes)
+}
+use crate::rcbor::Item;
+
+fn norm_key_ops(ty: Ty, it: &Item) -> Item {
+    fn key(it: &Item) -> Item {
+        match it {
+            Item::Map(m) => Item::Map(
+                m.iter()
+                    .map(|(k, v)| {
+                        if *k == Item::int(4) {
+                            if let Item::Array(a) = v {
+                                let mut a = a.clone();
+                                a.sort_by_key(|x| crate::rcbor::det(x));
+                                return (k.clone(), Item::Array(a));
+                            }
+                        }
+                        (k.clone(), v.clone())
+                    })
+                    .collect(),
+            ),
+            x => x.clone(),
+        }
+    }
+    match (ty, it) {
+        (Ty::Key, m) => key(m),
+        (Ty::KeySet, Item::Array(a)) => Item::Array(a.iter().map(key).collect()),
+        (_, x) => x.clone(),
+    }
 }
